@@ -12,6 +12,7 @@
      c05 call H cfg RET ; P…   → callsite <…> -> X callee <…> -> X agree B
      c05 rtcall H cfg RET ; P… → roto <…> rust <…> agree B
      c05 tags                  → Some=0 None=1 … | script Some=0 …
+     c05 place H T ; <value>   → rust <off:cell,…> roto <off:cell,…>
      c05 roundtrip <shape> <value> → ok|bad  (untransform∘transform and scriptView∘transform)
 -/
 import Driver.Util
@@ -218,6 +219,26 @@ def doRoundtrip (ts : List String) : String :=
     | _ => "bad-op"
   | none => "bad-op"
 
+def showCells (cs : Option (List (Nat × Cell))) : String :=
+  match cs with
+  | none => "none"
+  | some cs => commas (cs.map fun (o, c) => match c with
+      | .tag d => s!"{o}:t{d}"
+      | .leaf _ => s!"{o}:l"
+      | .handle => s!"{o}:h")
+
+/-- `c05 place H T ; <value>` → where the tags and leaves of `transform value` lie, on both sides -/
+def doPlace (h : HostLayouts) (ts : List String) : String :=
+  match splitSemi ts with
+  | [ty, val] =>
+    match parseTyAll ty, parseVal val with
+    | some t, some (v, []) =>
+      match transform v with
+      | some tv => s!"rust {showCells (rustPlace h t tv 0)} roto {showCells (rotoPlace h t tv 0)}"
+      | none => "no-transform"
+    | _, _ => "bad-op"
+  | _ => "bad-op"
+
 def handle (args : List String) : String :=
   match args with
   | "layout" :: h :: ty =>
@@ -236,6 +257,10 @@ def handle (args : List String) : String :=
     match parseHost h, parseCfg c, parseSig rest with
     | some h, some c, some s => doRtCall c h s
     | _, _, _ => "bad-op"
+  | "place" :: h :: rest =>
+    match parseHost h with
+    | some h => doPlace h rest
+    | none => "bad-op"
   | ["tags"] => doTags
   | "roundtrip" :: rest => doRoundtrip rest
   | _ => "bad-op"
